@@ -157,9 +157,10 @@ PROPS = {
             "the frame is read while the engine runs ('arrives before the scan exits' is C16's clause)",
             "RangeOK: the target subnet is a network address without host bits and prefix <= 32 (what net.ParseCIDR returns, C02), port ranges have lo <= hi <= 65535 (C18; the port generator refuses lo > hi)",
             "the kernel delivers to the socket exactly the frames the installed program accepts, each once",
+            "frames are not longer than the snap length the program returns (1518; arp 64), or truncating them to it is harmless: the processors and the reply shape read only the first 134 (arp: 42) bytes; stated, not proved, as def C03_snaplen_full",
             "spec decisions of DESIGN.md C03 (a)-(d): NS is not one of 'the flags SYN+ACK'; the SYN-scan record prints no flag letters; an IPv4 TLV option of length 2 is not well-formed (gopacket refuses it); trailing link-layer padding is allowed",
         ],
-        "level_text": "Lean theorems C03_exact / C03_iff / C03_property_form / C03_history / C03_chunks over the wiring table regenerated from command/*.go on every run (wiring_compatible, wiring_complete, engine_facts are decided by the kernel on the regenerated data): for every packet-scan command row, with and without --vpn, every valid range (any subnet or none, any list of port ranges, hence every chunk of startPortScanEngine), every prior contents of the processor's reused decoder structs and every byte string on the wire, the installed BPF filter followed by the processor puts on the result channel exactly Spec.Reply.replyRecord of that frame: the record made of the frame's own source address, source port and flag letters / ICMP type, code, TTL / sender MAC if the frame is a well-formed unfragmented frame of the scanned protocol (flat offset-defined header chain of Spec/Frame.lean) whose source lies in the target subnet, whose source port lies in one of the ranges being scanned, whose TCP byte 13 is exactly 0x12 for the SYN scan and whose ICMP type is not 8 -- and nothing for any other byte string; at most one record per frame; for whole captures frame by frame independently of history. Proof: both directions of decoder <-> flat header chain (C06 gives record => chain; the converse forward-decoding lemmas are new), filter denotation collapsed to byte conditions on frames with a chain, netmask arithmetic (a AND mask = net <=> equal prefixes). Tied to the code by the translator (wiring) and by component bpf: real filter strings (render, byte for byte), real libpcap + BPF VM and real processors on frames aimed at the range, one-field-off variants, truncations at every header boundary, IPv6 / VLAN / fragments and all malformed families, with the Spec verdict evaluated on the observed outcome.",
+        "level_text": "Lean theorems C03_exact / C03_iff / C03_property_form / C03_history / C03_chunks / C03_filters_compile over the wiring table regenerated from command/*.go on every run (wiring_compatible, wiring_complete, engine_facts are decided by the kernel on the regenerated data): for every packet-scan command row, with and without --vpn, every valid range (any subnet or none, any list of port ranges, hence every chunk of startPortScanEngine), every prior contents of the processor's reused decoder structs and every byte string on the wire, the installed BPF filter followed by the processor puts on the result channel exactly Spec.Reply.replyRecord of that frame: the record made of the frame's own source address, source port and flag letters / ICMP type, code, TTL / sender MAC if the frame is a well-formed unfragmented frame of the scanned protocol (flat offset-defined header chain of Spec/Frame.lean) whose source lies in the target subnet, whose source port lies in one of the ranges being scanned, whose TCP byte 13 is exactly 0x12 for the SYN scan and whose ICMP type is not 8 -- and nothing for any other byte string; at most one record per frame; for whole captures frame by frame independently of history. Proof: both directions of decoder <-> flat header chain (C06 gives record => chain; the converse forward-decoding lemmas are new), filter denotation collapsed to byte conditions on frames with a chain, netmask arithmetic (a AND mask = net <=> equal prefixes). Tied to the code by the translator (wiring) and by component bpf: real filter strings (render, byte for byte), real libpcap + BPF VM and real processors on frames aimed at the range, one-field-off variants, truncations at every header boundary, IPv6 / VLAN / fragments and all malformed families, with the Spec verdict evaluated on the observed outcome.",
         "level_note": "Trusted: Lean kernel; sxfacts reads the wiring faithfully (cross-checked: the harness runs the rows it reports); libpcap/BPF and gopacket semantics are models validated differentially on every run (quick: 450 ranges x 8-14 frames + 300 render cases + 1.5k processor histories), not proved; kernel delivery and snap-length truncation are assumptions.",
     },
     "C18": {
